@@ -92,6 +92,18 @@ CLAIMED = {
             "Trusted: rustc nightly MIR; cargo's exit status; the modelling of str::contains / slice::contains as "
             "free booleans in the filter table.",
             "DESIGN.md §4 C16"),
+    "C13": ("backward slice from every identifier-construction site of the emitter (taint: user name -> Ident without "
+            "escape), keyword-table comparison with rustc's own table dumped by the driver, spelling-test scan, "
+            "registration coverage",
+            "Decides: each of the 61 format_ident!/Ident::new sites takes a constant, a generated prefix, or a name "
+            "that passed escape_keyword (45 do not: reproduced for functions, methods, fields, params, consts, "
+            "traits, enums, variants, comprehension variables); the escape table equals rustc's edition-2021 "
+            "keyword list minus Incan's own reserved words and never raw-escapes self/Self/super/crate; the table "
+            "lookup is order-insensitive or sorted; lowering/emission contain no capitalisation tests outside the "
+            "reviewed list (one: the constructor heuristic, reproduced); every nominal declaration kind registers in "
+            "struct_names. Behavioural invariance under renaming is not decided.",
+            "Trusted: rustc nightly MIR and rustc_span keyword table; edition 2021 for generated projects.",
+            "DESIGN.md §4 C13"),
 }
 
 NOT_APPLICABLE = {
